@@ -242,9 +242,13 @@ Inductive op :=
 | SkipFrame              (* renderer.surface().clear(), no frame *)
 | Clear                  (* renderer.clear(term) *)
 | Renew                  (* renderer.clear(term); renderer = TerminalRenderer::new(term, true)  (terminal.rs, resize path) *)
-| Resize (h w : nat) (g : grid scell).
+| Resize (h w : nat) (g : grid scell)
                          (* the same after the terminal was resized to h x w and now shows g (an arbitrary screen:
                             what a terminal shows after a resize is its own business) *)
+| FailFrame (k : nat).   (* renderer.frame(term) on a terminal whose execute() fails at command k+1: the first k commands
+                            were issued, frame() returned Err; buffers are not flipped, the surface is not reset, the
+                            repaint stays forced (render.rs: force_repaint is cleared only at the end of frame()).
+                            Not a rendered frame: outside the theorems, inside the correspondence run *)
 
 Definition rstep (o : oracle) (s : rstate) (x : op) : list cmd * rstate :=
   match x with
@@ -254,6 +258,8 @@ Definition rstep (o : oracle) (s : rstate) (x : op) : list cmd * rstate :=
   | Clear => rclear s
   | Renew => (fst (rclear s), rnew (rh s) (rw s) true)
   | Resize h w _ => (fst (rclear s), rnew h w true)
+  | FailFrame k => (firstn k (fst (frame o s)),
+                    mkrstate (rh s) (rw s) (front s) (back s) (gmake (rh s) (rw s) MDamaged))
   end.
 
 (* the command lists issued op by op *)
